@@ -172,9 +172,12 @@ def expand_helpers(model: Model, cls: ClassInfo, func: ast.FunctionDef, depth: i
                 if not (isinstance(s, ast.Expr) and isinstance(s.value, ast.Constant))]
         for s in pre + body:
             for n in ast.walk(s):
-                if not hasattr(n, "lineno"):
+                # inlined statements sit at the call site (order comparisons by line number stay meaningful)
+                if isinstance(n, (ast.stmt, ast.expr)):
                     n.lineno = call.lineno
+                    n.end_lineno = call.lineno
                     n.col_offset = 0
+                    n.end_col_offset = 0
         return pre + body
 
     def rewrite(stmts: List[ast.stmt]) -> List[ast.stmt]:
